@@ -19,7 +19,7 @@ Fns == {
   [fn |-> "filter_valid",                  args |-> <<"F", "M", "A">>, verbose |-> FALSE, params |-> {"last", "whole"}],
   [fn |-> "connect_valid_graph",           args |-> <<"K">>,           verbose |-> TRUE,  params |-> {"-"}],
   [fn |-> "connect_coding_graph",          args |-> <<"K">>,           verbose |-> TRUE,  params |-> {"t=1", "t=2", "t=3"}],
-  [fn |-> "create_random_shuffles",        args |-> <<>>,              verbose |-> TRUE,  params |-> {"k=2,seed=7", "k=2,seed=8", "k=3,seed=7"}],
+  [fn |-> "create_random_shuffles",        args |-> <<>>,              verbose |-> TRUE,  params |-> {"k=2,seed=7", "k=2,seed=8", "k=3,seed=7", "k=2,seed=0"}],
   [fn |-> "get_complete_accessor",         args |-> <<>>,              verbose |-> TRUE,  params |-> {"k=1", "k=2", "k=3"}],
   [fn |-> "accessor_to_adjacency_matrix",  args |-> <<"A">>,           verbose |-> TRUE,  params |-> {"-"}],
   [fn |-> "adjacency_matrix_to_accessor",  args |-> <<"X">>,           verbose |-> TRUE,  params |-> {"-"}],
